@@ -93,6 +93,55 @@ RefSat(d) == (IF d.cin = d.groups /\ d.cout = d.groups THEN {"dw"} ELSE {})
              \cup (IF \A i \in DOMAIN d.k : d.k[i] = 3 THEN {"k3"} ELSE {})
              \cup (IF d.usr THEN {"usr"} ELSE {})
 
+
+(***************************************************************************)
+(* Function IDENTITY and derived layer types (round-3 extension).           *)
+(* A registration may associate the very function object that the spec     *)
+(* uses as its default ("depthwise is free" in a 'zero' spec): dreg = the  *)
+(* set of <<type, pattern>> registered that way.  What a caller can        *)
+(* observe of a result is then Obj(result): the default object for the     *)
+(* default AND for those registrations.  Layer types may derive from each  *)
+(* other (a user's SubConv2d(nn.Conv2d) = type "D" below "A"): the lookup  *)
+(* is by the layer's OWN type, registrations of a base type are not merged *)
+(* into it.                                                                *)
+(***************************************************************************)
+Obj(r, ty, dreg, dflt) == IF Len(r) = 2 /\ <<ty, r[2]>> \in dreg THEN <<dflt>> ELSE r
+RefLookupId(reg, dreg, ty, sat, dflt) == Obj(RefLookup(reg, ty, sat, dflt), ty, dreg, dflt)
+
+\* "sentinel": the default object doubles as the 'no constrained match yet' marker (identity test on the result)
+RECURSIVE ScanSentinel(_, _, _, _, _, _, _, _)
+ScanSentinel(entries, i, sat, best, generic, ty, dreg, dflt) ==
+    IF i > Len(entries)
+    THEN IF Obj(best, ty, dreg, dflt) = <<dflt>> /\ generic # <<>> THEN generic ELSE best
+    ELSE LET p == entries[i][2] IN
+         IF p = "U" THEN ScanSentinel(entries, i + 1, sat, best, <<"fn", p>>, ty, dreg, dflt)
+         ELSE IF p \in sat
+              THEN IF Obj(best, ty, dreg, dflt) = <<dflt>>
+                   THEN ScanSentinel(entries, i + 1, sat, <<"fn", p>>, generic, ty, dreg, dflt)
+                   ELSE <<"conflict">>
+              ELSE ScanSentinel(entries, i + 1, sat, best, generic, ty, dreg, dflt)
+
+\* base types of a layer type (reflexive); "D" derives from "A"
+Bases(ty) == IF ty = "D" THEN {"D", "A"} ELSE {ty}
+\* "mergebase": the lists of every registered type the layer's type derives from are scanned one after the other, in
+\* the order in which the types were first registered (dict insertion order)
+TypeOrder(reg) == LET firsts == {i \in DOMAIN reg : \A j \in 1..(i - 1) : reg[j][1] # reg[i][1]} IN
+                  [k \in 1..Cardinality(firsts) |->
+                      reg[CHOOSE i \in firsts : Cardinality({j \in firsts : j < i}) = k - 1][1]]
+RECURSIVE MergedEntries(_, _, _, _)
+MergedEntries(reg, ty, tord, k) ==
+    IF k > Len(tord) THEN <<>>
+    ELSE (IF tord[k] \in Bases(ty) THEN OfType(reg, tord[k]) ELSE <<>>) \o MergedEntries(reg, ty, tord, k + 1)
+
+ScanId(impl, reg, dreg, ty, sat, dflt) ==
+    CASE impl = "sentinel"  -> Obj(ScanSentinel(OfType(reg, ty), 1, sat, <<dflt>>, <<>>, ty, dreg, dflt), ty, dreg, dflt)
+      [] impl = "mergebase" -> LET e == MergedEntries(reg, ty, TypeOrder(reg), 1)
+                                   r == ScanFrom("fixed", e, 1, sat, <<dflt>>, "None")
+                               IN  \* the function found may belong to a base type: name it after the type that registered it
+                                   IF Len(r) = 2 /\ <<ty, r[2]>> \notin Range(reg) THEN <<"basefn", r[2]>>
+                                   ELSE Obj(r, ty, dreg, dflt)
+      [] OTHER              -> Obj(Scan("fixed", reg, ty, sat, dflt), ty, dreg, dflt)
+
 \* permutations of a registration history (for order independence)
 Perms(reg) == {p \in ArrangementsOf(Range(reg), Len(reg)) : Len(p) = Len(reg)}
 =============================================================================
